@@ -1,3 +1,325 @@
-/- C10: property theorems (stub, not yet built) -/
+/-
+C10 — Drain honours PDBs, do-not-disrupt and ordering until the deadline.
+
+Property theorems only (helper lemmas live in `Karp/Proofs/Drain.lean`).
+Model: `Karp/Model/Drain.lean` (pod predicates, `needsForceDelete`, eviction `Queue`, `Terminator.Drain`,
+        histories against the emulated API server).
+Spec:  `Karp/Spec/Drain.lean` (what an observer may see of one step, restated from the property text).
+-/
+import Karp.Proofs.Drain
+
 namespace Karp.C10
+open Karp.Drain Karp.Spec.Drain
+open Karp.Gen
+
+/-! ## Fact expectations over the regenerated constants, tables and call orders -/
+
+/-- a terminating pod stops holding up the drain strictly more than one minute after its deletionTimestamp -/
+theorem fact_stuck_buffer :
+    C10Drain.stuckTerminatingNs = 60 * 1000000000 ∧ C10Drain.stuckTerminatingOp = ">" := by decide
+
+/-- "never with a zero grace period": the clamp of the force-delete grace period is at least one second -/
+theorem fact_min_grace : C10Drain.forceDeleteMinGraceSeconds = 1 := by decide
+
+/-- the threshold test is `now.After(deadline − grace)` with the grace period subtracted once -/
+theorem fact_threshold_compare :
+    C10Drain.needsForceDeleteCompare = "clk.Now().After(deleteTime)" ∧
+    C10Drain.needsForceDeleteCompareMultipliers = ["-1"] := by decide
+
+/-- Kubernetes graceful-shutdown order: non-critical non-daemon, non-critical daemon, critical non-daemon,
+    critical daemon -/
+theorem fact_tier_order :
+    C10Drain.tierOrder = [(false, false), (false, true), (true, false), (true, true)] := by decide
+
+theorem fact_critical_classes :
+    C10Drain.criticalPriorityClasses = ["system-cluster-critical", "system-node-critical"] := by decide
+
+theorem fact_owner_kinds :
+    C10Drain.daemonSetOwner = ("apps/v1", "DaemonSet") ∧ C10Drain.nodeOwner = ("v1", "Node") := by decide
+
+theorem fact_annotation_and_taint :
+    C10Drain.doNotDisruptAnnotationKey = "karpenter.sh/do-not-disrupt" ∧
+    C10Drain.disruptedNoScheduleTaintKey = "karpenter.sh/disrupted" ∧
+    C10Drain.disruptedNoScheduleTaintValue = "" ∧
+    C10Drain.disruptedNoScheduleTaintEffect = "NoSchedule" := by decide
+
+/-- the conjuncts of the pod predicates the model transcribes -/
+theorem fact_predicate_structure :
+    C10Drain.isActiveConjuncts = ["!IsTerminal", "!IsTerminating"] ∧
+    C10Drain.isEvictableConjuncts = ["IsActive", "!ToleratesDisruptedNoScheduleTaint", "!IsOwnedByNode", "!IsDoNotDisruptActive"] ∧
+    C10Drain.isDrainableConjuncts = ["!ToleratesDisruptedNoScheduleTaint", "!IsStuckTerminating", "!IsOwnedByNode"] ∧
+    C10Drain.isWaitingEvictionConjuncts = ["!IsTerminal", "IsDrainable"] ∧
+    C10Drain.isForcedEvictionEligibleConjuncts = ["nodeGracePeriodExpirationTime != nil", "IsTerminating", "DeletionTimestamp.After"] := by decide
+
+/-- `Reconcile` decides in this order: force-delete test, terminal/terminating, evictable, evict -/
+theorem fact_reconcile_order :
+    C10Drain.reconcileCalls = ["needsForceDelete", "forceDelete", "IsActive", "complete", "IsEvictable", "evict"] := by decide
+
+/-- `Drain` only filters, splits, groups and enqueues: it contains no `Delete`/`Create` call -/
+theorem fact_drain_only_enqueues :
+    C10Drain.drainCalls = ["IsWaitingEviction", "needsForceDelete", "Add", "groupPodsByPriority", "Add"] := by decide
+
+/-- `evict` goes through the eviction sub-resource and never calls `Delete`; `forceDelete` is the only `Delete` -/
+theorem fact_removal_calls :
+    C10Drain.evictCalls = ["Create", "SubResource", "complete", "complete"] ∧
+    C10Drain.forceDeleteCalls = ["Delete", "complete", "complete"] ∧
+    C10Drain.awaitDrainCalls = ["Drain", "SetTrue"] := by decide
+
+/-! ## One reconcile of the eviction queue: all queues, pods, clocks and API answers -/
+
+/-- **C10_evict_only_evictable** — whenever a reconcile sends an eviction it is for the reconciled pod, the pod
+    is queued, and the pod is active, not static, does not tolerate the disruption taint and has no active
+    do-not-disrupt annotation (`mayEvict`, the specification's reading); moreover the pod is not past its
+    force-delete threshold. -/
+theorem C10_evict_only_evictable (q : Items) (p : Pod) (now : Int) (ea : EvictAns) (da : DeleteAns) (u : Nat)
+    (h : (reconcile q p now ea da).1 = some (.evict u)) :
+    u = p.uid ∧ (∃ D, qget q p.uid = some D ∧ needsForceDelete p D now = false) ∧ mayEvict p now = true :=
+  reconcile_evict_spec q p now ea da u h
+
+/-- what `mayEvict` says, spelled out -/
+theorem C10_mayEvict_iff (p : Pod) (now : Int) :
+    mayEvict p now = true ↔
+      p.terminal = false ∧ p.del = none ∧ p.static = false ∧ p.tolerates = false ∧ protectedNow p now = false := by
+  unfold mayEvict untouchable
+  cases p.terminal <;> cases p.del <;> cases p.static <;> cases p.tolerates <;> cases protectedNow p now <;> simp
+
+/-- **C10_no_deadline_no_delete** — a pod queued without a node deadline (the NodeClaim has no termination grace
+    period), or not queued at all, is never deleted directly: the only removal request is an eviction, so
+    PodDisruptionBudgets apply. -/
+theorem C10_no_deadline_no_delete (q : Items) (p : Pod) (now : Int) (ea : EvictAns) (da : DeleteAns)
+    (hq : qget q p.uid = some none ∨ qget q p.uid = none) (u : Nat) (g : Int) :
+    (reconcile q p now ea da).1 ≠ some (.delete u g) :=
+  reconcile_no_deadline q p now ea da hq u g
+
+/-- **C10_force** — whenever a reconcile deletes a pod directly: the pod is queued under a node deadline `d`
+    (so the NodeClaim has a termination grace period); the grace period sent is at least one second; an
+    already terminating pod is only re-deleted if its deletionTimestamp lies after `d`, a running pod only
+    strictly after `d − terminationGracePeriodSeconds`; and the grace period granted ends by `d` (or is the
+    one-second minimum) — the pod is handled under the deadline it is queued under, not a later one. -/
+theorem C10_force (q : Items) (p : Pod) (now : Int) (ea : EvictAns) (da : DeleteAns) (u : Nat) (g : Int)
+    (h : (reconcile q p now ea da).1 = some (.delete u g)) :
+    u = p.uid ∧ ∃ d, qget q p.uid = some (some d) ∧ 1 ≤ g ∧
+      (match p.del with
+       | some dt => d < dt
+       | none => ∃ gr, p.grace = some gr ∧ d - gr * sec < now) ∧
+      (now + g * sec ≤ d ∨ g = 1) :=
+  reconcile_delete_spec q p now ea da u g h
+
+/-- **C10_reconcile_meets_spec** — every reconcile (any queue, pod, clock, API answers) is one the specification
+    permits: at most one removal request, permitted by `callOK`, and only the reconciled pod's entry may leave
+    the queue.  (`strict` adds: never a static or tolerating pod, given that none is queued.) -/
+theorem C10_reconcile_meets_spec (q : Items) (p : Pod) (now : Int) (ea : EvictAns) (da : DeleteAns) (strict : Bool)
+    (hs : strict = true → (qget q p.uid).isSome = true → untouchable p = false) :
+    reconcileOK p now q (reconcile q p now ea da).2.2 (reconcile q p now ea da).1.toList strict = true :=
+  reconcile_meets_spec q p now ea da strict hs
+
+/-! ## The queue's deadline: earliest wins, never loosened while queued -/
+
+/-- **C10_add_keeps_earliest** — after `Queue.Add(d, pods)` every given pod is stored under the earlier of its
+    previous deadline (none = +∞) and `d`; every other entry is untouched. -/
+theorem C10_add_keeps_earliest (q : Items) (d : Option Int) (ks : List Nat) (k : Nat) :
+    qget (qaddAll q d ks) k = if k ∈ ks then some (dmin ((qget q k).getD none) d) else qget q k :=
+  qget_qaddAll d ks q k
+
+/-- `dmin` is the greatest lower bound in the order "no deadline = +∞" -/
+theorem C10_dmin_glb (a b c : Option Int) :
+    dle (dmin a b) a = true ∧ dle (dmin a b) b = true ∧ (dle c a = true → dle c b = true → dle c (dmin a b) = true) :=
+  ⟨dle_dmin_left a b, dle_dmin_right a b, dle_dmin_of⟩
+
+/-- **C10_deadline_monotone_step** — no step of any history (direct adds, drain passes, reconciles, clock, pod
+    changes) moves the stored deadline of a pod that stays queued to a later one or clears it. -/
+theorem C10_deadline_monotone_step (s : State) (st : Step) (k : Nat) (e e' : Option Int)
+    (h : qget s.q k = some e) (h' : qget (nextState s st).q k = some e') : dle e' e = true :=
+  step_monotone s st k e e' h h'
+
+/-- **C10_deadline_monotone** — along every history, from every state: if pod `k` is queued in every state the
+    run passes through, its stored deadline at the end is no later than at the beginning (and a deadline never
+    becomes "none": `dle none (some _) = false`). -/
+theorem C10_deadline_monotone (k : Nat) (steps : List Step) (s : State)
+    (h : queuedThroughout k s steps = true) :
+    ∃ e e', qget s.q k = some e ∧ qget (runState s steps).q k = some e' ∧ dle e' e = true :=
+  history_monotone k steps s h
+
+/-! ## One drain pass: tiers, who is enqueued, verdict -/
+
+/-- **C10_tiers** — every pod a drain pass hands to the queue is on the node, not finished, not static, not
+    tolerating the disruption taint; and it is either past its force-delete threshold (only possible with a node
+    deadline), or it belongs to the lowest tier — in the regenerated order of `groupPodsByPriority` — among all
+    pods that still await graceful eviction. -/
+theorem C10_tiers (pods : List Pod) (D : Option Int) (now : Int) (p : Pod) (h : p ∈ enqueued pods D now) :
+    p ∈ pods ∧ p.onNode = true ∧ p.terminal = false ∧ p.static = false ∧ p.tolerates = false ∧
+    ((needsForceDelete p D now = true ∧ D ≠ none) ∨
+     (needsForceDelete p D now = false ∧
+       ∀ p' ∈ pods, (p'.onNode && isWaitingEviction p' now) = true → needsForceDelete p' D now = false →
+         rankIn C10Drain.tierOrder (cls p) ≤ rankIn C10Drain.tierOrder (cls p'))) := by
+  have hok := enqueued_ok pods D now p h
+  have hmw : mustWait p now = true := by
+    have := hok.2; unfold enqueueOK at this
+    simp only [Bool.and_eq_true] at this; exact this.1
+  have hflags : p.onNode = true ∧ p.terminal = false ∧ p.static = false ∧ p.tolerates = false := by
+    revert hmw; unfold mustWait untouchable
+    cases p.onNode <;> cases p.terminal <;> cases p.static <;> cases p.tolerates <;> simp
+  refine ⟨hok.1, hflags.1, hflags.2.1, hflags.2.2.1, hflags.2.2.2, ?_⟩
+  rw [mem_enqueued] at h
+  rcases h with h | h
+  · left
+    rw [mem_deleteEligible] at h
+    rw [needsForceDelete_eq_strictlyPastD]
+    refine ⟨h.2.2, ?_⟩
+    intro hD; rw [hD] at h; simp [strictlyPastD] at h
+  · right
+    have hgc := (mem_gracefulCandidates pods D now p).mp (mem_firstGroup_graceful pods D now p h)
+    rw [needsForceDelete_eq_strictlyPastD]
+    refine ⟨hgc.2.2, ?_⟩
+    intro p' hp' hw' hnf'
+    rw [waiting_eq_mustWait] at hw'
+    rw [needsForceDelete_eq_strictlyPastD] at hnf'
+    exact (firstNonEmpty_least _ _ p h).2.2 p' ((mem_gracefulCandidates pods D now p').mpr ⟨hp', hw', hnf'⟩)
+      (cls_mem_tierOrder p')
+
+/-- **C10_first_tier_first** — in particular a daemon or critical pod is handed to the eviction path only when no
+    non-critical non-daemon pod still awaits graceful eviction. -/
+theorem C10_first_tier_first (pods : List Pod) (D : Option Int) (now : Int) (p p' : Pod)
+    (h : p ∈ enqueued pods D now) (hnf : needsForceDelete p D now = false) (hl : late p = true)
+    (hp' : p' ∈ pods) (hw' : (p'.onNode && isWaitingEviction p' now) = true)
+    (hnf' : needsForceDelete p' D now = false) : late p' = true := by
+  rw [mem_enqueued] at h
+  rcases h with h | h
+  · rw [mem_deleteEligible, ← needsForceDelete_eq_strictlyPastD, hnf] at h; simp at h
+  · rw [waiting_eq_mustWait] at hw'
+    rw [needsForceDelete_eq_strictlyPastD] at hnf'
+    exact firstGroup_late pods D now p h hl p' ((mem_gracefulCandidates pods D now p').mpr ⟨hp', hw', hnf'⟩)
+
+/-- **C10_drain_queue** — the queue after a drain pass, pointwise: enqueued pods are stored under the earlier of
+    their previous deadline and the pass's, everything else is untouched (in particular nothing is dropped). -/
+theorem C10_drain_queue (q : Items) (pods : List Pod) (D : Option Int) (now : Int) (k : Nat) :
+    qget (drain q pods D now).1 k =
+      if k ∈ (enqueued pods D now).map (·.uid) then some (dmin ((qget q k).getD none) D) else qget q k :=
+  qget_drain q pods D now k
+
+/-- **C10_drain_verdict** — `Drain` reports "still waiting" (a `NodeDrainError`, which stalls node termination)
+    exactly when some pod on the node is not finished, not static, not tolerating and not stuck terminating. -/
+theorem C10_drain_verdict (q : Items) (pods : List Pod) (D : Option Int) (now : Int) :
+    (drain q pods D now).2 = true ↔ ∃ p ∈ pods, mustWait p now = true := by
+  rw [drain_verdict]
+  constructor
+  · intro h
+    cases hw : waitingPods pods now with
+    | nil => rw [hw] at h; simp at h
+    | cons p rest =>
+      have : p ∈ waitingPods pods now := by rw [hw]; simp
+      exact ⟨p, (mem_waitingPods pods now p).mp this⟩
+  · intro ⟨p, hp, hm⟩
+    have : p ∈ waitingPods pods now := (mem_waitingPods pods now p).mpr ⟨hp, hm⟩
+    cases hw : waitingPods pods now with
+    | nil => rw [hw] at this; simp at this
+    | cons _ _ => rfl
+
+/-- **C10_drain_meets_spec** — every drain pass (any queue, pod mix, deadline, clock) is one the specification
+    permits: it sends no removal request, drops or loosens nothing, admits only pods `enqueueOK` allows under
+    the earlier deadline, queues every pod that is due, and never reports completion while a pod is waited for. -/
+theorem C10_drain_meets_spec (q : Items) (pods : List Pod) (D : Option Int) (now : Int) :
+    drainOK pods D now q (drain q pods D now).1 [] (!(drain q pods D now).2) = true :=
+  drain_meets_spec q pods D now
+
+/-! ## All histories: interleavings of drain passes, reconciles, clock advances and pod changes -/
+
+/-- **C10_histories** — for every scenario (any pods, any initial clock) and every history of drain passes,
+    eviction-queue reconciles with any API answers, clock advances and pod changes, every step of the model
+    meets the specification (`stepOK`, strict reading: static and tolerating pods are never touched). -/
+theorem C10_histories (now : Int) (ps : List Pod) (steps : List Step) (h : noAdd steps = true) :
+    allOK true (initState now ps) steps = true :=
+  history_meets_spec true steps _ (wf_init now ps) (fun _ => ⟨touchable_init now ps, h⟩)
+
+/-- **C10_histories_with_direct_adds** — the same for histories that also contain direct `Queue.Add` calls (which
+    bypass `Drain`'s filters), from any well-formed state, in the non-strict reading. -/
+theorem C10_histories_with_direct_adds (s : State) (hwf : WF s) (steps : List Step) :
+    allOK false s steps = true :=
+  history_meets_spec false steps s hwf (fun h => by simp at h)
+
+/-- **C10_removal_traces_to_admission** — in every history of drain passes, reconciles, clock advances and pod
+    changes from a scenario's start: whenever a reconcile sends a removal request (eviction or direct delete) for
+    pod `u`, an earlier drain pass of that history handed `u` to the queue — at which moment `u` met C10_tiers
+    (lowest tier among the pods awaiting graceful eviction, or past its threshold) — and `u` has stayed queued
+    from that pass until this reconcile (so, by C10_deadline_monotone, under a deadline that only tightened). -/
+theorem C10_removal_traces_to_admission (now : Int) (ps : List Pod) (pre : List Step) (i : Nat)
+    (ea : EvictAns) (da : DeleteAns) (c : Call) (hna : noAdd pre = true)
+    (hc : c ∈ (stepModel (runState (initState now ps) pre) (.recon i ea da)).calls) :
+    ∃ a d b, pre = a ++ Step.drain d :: b ∧
+      c.uid ∈ (enqueued (livePods (runState (initState now ps) a)) d (runState (initState now ps) a).now).map (·.uid) ∧
+      queuedThroughout c.uid (nextState (runState (initState now ps) a) (.drain d)) b = true := by
+  apply queued_was_admitted c.uid pre (initState now ps) hna rfl
+  generalize runState (initState now ps) pre = s at hc
+  simp only [stepModel] at hc
+  cases hp : s.pods[i]? with
+  | none => simp [hp] at hc
+  | some w =>
+    simp only [hp] at hc
+    by_cases hg : w.gone = true
+    · simp [hg] at hc
+    · simp only [hg, Bool.false_eq_true, if_false] at hc
+      cases hcall : (reconcile s.q w.pod s.now ea da).1 with
+      | none => simp [hcall] at hc
+      | some c' =>
+        simp only [hcall, Option.toList_some, List.mem_singleton] at hc
+        subst hc
+        cases c with
+        | evict u =>
+          obtain ⟨hu, ⟨D, hD, _⟩, _⟩ := reconcile_evict_spec s.q w.pod s.now ea da u hcall
+          simp [Call.uid, qhas, hu, hD]
+        | delete u g =>
+          obtain ⟨hu, d, hD, _⟩ := reconcile_delete_spec s.q w.pod s.now ea da u g hcall
+          simp [Call.uid, qhas, hu, hD]
+
+/-! ## Non-vacuity: concrete scenarios that reach every branch the theorems speak about -/
+
+def podA : Pod :=
+  { uid := 0, onNode := true, terminal := false, del := none, grace := some 30, tolerates := false,
+    static := false, daemon := false, critical := false, dnd := .absent, start := none }
+/-- a critical daemon pod -/
+def podC : Pod := { podA with uid := 1, critical := true, daemon := true }
+/-- a do-not-disrupt pod with a one-hour grace period -/
+def podP : Pod := { podA with uid := 2, dnd := .forever, grace := some 3600 }
+/-- a static pod -/
+def podS : Pod := { podA with uid := 3, static := true }
+
+/-- node deadline used in the examples: t = 1000 s -/
+def dl : Int := 1000 * sec
+
+-- before `deadline − grace` the pod is evicted through the eviction API (hypothesis of C10_evict_only_evictable)
+example : (reconcile [(0, some dl)] podA (900 * sec) .ok .ok).1 = some (.evict 0) := by decide
+-- exactly at `deadline − grace` still an eviction; one nanosecond later a direct delete with the remaining 29 s
+example : (reconcile [(0, some dl)] podA (970 * sec) .ok .ok).1 = some (.evict 0) := by decide
+example : (reconcile [(0, some dl)] podA (970 * sec + 1) .ok .ok).1 = some (.delete 0 29) := by decide
+-- after the deadline the grace period is the one-second minimum, never zero (hypothesis of C10_force)
+example : (reconcile [(0, some dl)] podA (1005 * sec) .ok .ok).1 = some (.delete 0 1) := by decide
+-- without a node deadline the same pod, far past everything, is still only evicted (C10_no_deadline_no_delete)
+example : (reconcile [(0, none)] podA (5000 * sec) .tooMany .ok) = (some (.evict 0), .requeue, [(0, none)]) := by decide
+-- an actively do-not-disrupt pod is not evicted (requeue, no request) …
+example : (reconcile [(2, none)] podP (900 * sec) .ok .ok) = (none, .requeue, [(2, none)]) := by decide
+-- … but with a node deadline it is deleted once `deadline − grace` has passed (grace 3600 s > time left)
+example : (reconcile [(2, some dl)] podP (900 * sec) .ok .ok).1 = some (.delete 2 100) := by decide
+-- a pass over a non-critical pod, a critical daemon pod and a static pod enqueues only the first (C10_tiers) …
+example : drain [] [podA, podC, podS] (some dl) (900 * sec) = ([(0, some dl)], true) := by decide
+-- … once it is gone the critical daemon pod follows; the static pod is never enqueued and never waited for
+example : drain [] [podC, podS] (some dl) (900 * sec) = ([(1, some dl)], true) := by decide
+example : drain [] [podS] (some dl) (900 * sec) = ([], false) := by decide
+-- past its threshold a critical pod is enqueued together with the first tier
+example : (drain [] [podA, { podC with grace := some 3600 }] (some dl) (900 * sec)).1 = [(0, some dl), (1, some dl)] := by decide
+-- a later pass with a later (or no) deadline does not loosen the stored one; an earlier one tightens it
+example : (drain [(0, some dl)] [podA] (some (dl + 60 * sec)) (900 * sec)).1 = [(0, some dl)] := by decide
+example : (drain [(0, some dl)] [podA] none (900 * sec)).1 = [(0, some dl)] := by decide
+example : (drain [(0, some dl)] [podA] (some (dl - 60 * sec)) (900 * sec)).1 = [(0, some (dl - 60 * sec))] := by decide
+-- a whole history: drain, PDB refusal, clock crosses the threshold, direct delete, next tier
+example :
+    (runModel (initState (900 * sec) [podA, podC])
+      [.drain (some dl), .recon 0 .tooMany .ok, .recon 1 .ok .ok, .tick (71 * sec), .drain (some dl), .recon 0 .ok .gone,
+       .drain (some dl), .recon 1 .ok .ok]).map (fun o => (o.r, o.calls))
+    = [("waiting", []), ("requeue", [.evict 0]), ("done", []), ("", []), ("waiting", []), ("done", [.delete 0 29]),
+       ("waiting", []), ("done", [.delete 1 29])] := by decide
+-- the hypotheses of the history theorems are met by it
+example : noAdd [.drain (some dl), .recon 0 .tooMany .ok, .tick (71 * sec), .recon 0 .ok .gone] = true := by decide
+example : queuedThroughout 0 (nextState (initState (900 * sec) [podA, podC]) (.drain (some dl)))
+    [.recon 0 .tooMany .ok, .tick (71 * sec), .drain (some (dl - sec))] = true := by decide
+
 end Karp.C10
